@@ -7,7 +7,7 @@ import numpy as np
 
 UNIT_CELLS = {
     # id: (symbols, lattice rows, scaled positions, primitive_matrix)
-    "sc1": (["Po"], [[3.0, 0, 0], [0, 3.0, 0], [0, 0, 3.0]], [[0, 0, 0]], None),
+    "sc1": (["Cu"], [[3.0, 0, 0], [0, 3.0, 0], [0, 0, 3.0]], [[0, 0, 0]], None),
     "cscl": (["Cs", "Cl"], [[4.0, 0, 0], [0, 4.0, 0], [0, 0, 4.0]], [[0, 0, 0], [0.5, 0.5, 0.5]], None),
     "tric2": (["Na", "Cl"], [[4.0, 0.1, 0.0], [0.0, 4.2, 0.2], [0.3, 0.0, 3.9]],
               [[0.02, 0.01, 0.03], [0.47, 0.55, 0.52]], None),
